@@ -1,6 +1,7 @@
 //! C09 — edges are a set, attributes are single-assignment, execute_into only adds
 //! (map/set graph model advanced by the reference interpreter over histories of execute_into).
 
+use std::collections::BTreeMap;
 use super::common::*;
 use crate::cval::{observe, CVal, MGraph, MNode};
 use crate::engine::*;
@@ -74,6 +75,12 @@ pub fn case(tape: &[u32]) -> CaseOutcome {
         history.push(json!({"prepopulate": ops}));
     }
     let ncalls = 1 + t.choose(3);
+    // a quarter of the histories run every call with debug attributes switched on: they are taken
+    // out before the comparison with the reference, and those already in the graph must stay
+    const DEBUG_NAMES: [&str; 3] = ["zz-loc", "zz-var", "zz-match"];
+    let with_debug = t.chance(1, 4);
+    let debug_opt = if with_debug { Some((DEBUG_NAMES[0].to_string(), DEBUG_NAMES[1].to_string(), DEBUG_NAMES[2].to_string())) } else { None };
+    let mut debug_seen: BTreeMap<(usize, Option<usize>, String), CVal> = BTreeMap::new();
     let mut report = CaseReport::default();
     report.evaluations = 0;
     let mut labels = vec![];
@@ -86,6 +93,7 @@ pub fn case(tape: &[u32]) -> CaseOutcome {
         cfg.prints = false;
         cfg.max_stanzas = 4;
         cfg.risk = 8;
+        cfg.fault = t.chance(1, 6);
         cfg.gnode_globals = model.nodes.len().min(1 + t.choose(3));
         cfg.globals = false;
         let program = make_program(&mut gt, &cfg);
@@ -101,14 +109,42 @@ pub fn case(tape: &[u32]) -> CaseOutcome {
         let before = model.clone();
         let run_model = model_run(&program.gen.prog, &tree, &index, &source, &globals, model.clone());
         let flag = CountingFlag::with_cap(run_model.poll_cap());
-        let outcome = execute_into(&file, &mut graph, &tree, &index, &source, &globals, &ExecOpts { lazy, debug: None }, &flag);
+        let outcome = execute_into(&file, &mut graph, &tree, &index, &source, &globals, &ExecOpts { lazy, debug: debug_opt.clone() }, &flag);
         report.evaluations += 1;
         history.push(json!({"call": call, "mode": mode, "dsl": dsl, "globals": globals_json(&globals)}));
         let d = |extra: serde_json::Value| json!({"source": source, "history": history, "more": extra});
-        let obs = match observe(&graph, &index) {
+        let mut obs = match observe(&graph, &index) {
             Ok(o) => o,
             Err(e) => return CaseOutcome::Fail(Failure::new(format!("C09:{}:structure", mode), format!("after call {} the graph is structurally inconsistent: {}", call, e), d(json!({})))),
         };
+        if with_debug {
+            let mut now: BTreeMap<(usize, Option<usize>, String), CVal> = BTreeMap::new();
+            for (i, n) in obs.nodes.iter_mut().enumerate() {
+                for name in DEBUG_NAMES {
+                    if let Some(v) = n.attrs.remove(name) {
+                        now.insert((i, None, name.to_string()), v);
+                    }
+                }
+                for (sink, attrs) in n.edges.iter_mut() {
+                    for name in DEBUG_NAMES {
+                        if let Some(v) = attrs.remove(name) {
+                            now.insert((i, Some(*sink), name.to_string()), v);
+                        }
+                    }
+                }
+            }
+            for (k, v) in &debug_seen {
+                if now.get(k) != Some(v) {
+                    return CaseOutcome::Fail(Failure::new(
+                        format!("C09:{}:existing-debug-attribute-changed", mode),
+                        format!("call {} changed the debug attribute {} of {} from {:?} to {:?}", call, k.2, match k.1 { Some(s) => format!("edge {} -> {}", k.0, s), None => format!("node {}", k.0) }, v, now.get(k)),
+                        d(json!({})),
+                    ));
+                }
+            }
+            debug_seen = now;
+            labels.push("debug-attributes-on".to_string());
+        }
         if obs.nodes.len() < before.nodes.len() {
             return CaseOutcome::Fail(Failure::new(format!("C09:{}:nodes-lost", mode), format!("call {} removed graph nodes ({} -> {})", call, before.nodes.len(), obs.nodes.len()), d(json!({}))));
         }
